@@ -102,6 +102,12 @@ def gen_cases(ctx):
         # one partial-chart plotter object draws several schedules one after the other
         inst = gen.gen_instance(rng, rng.choice(["classic", "irregular", "flexible", "recirc"]), max_jobs=4, max_machines=3)
         yield {"kind": "plotter_reuse", "instance": inst, "seed": rng.randrange(2**31)}
+    for i in range(ctx.scale(40, 1600)):
+        # the chart of the current state requested through a GanttChartCreator, also one that was
+        # built for a deep copy of the dispatcher on which the history went on
+        inst = gen.gen_instance(rng, rng.choice(["classic", "irregular", "flexible", "recirc", "gap"]),
+                                max_jobs=4, max_machines=3)
+        yield {"kind": "creator_chart", "instance": inst, "seed": rng.randrange(2**31)}
     for i in range(ctx.scale(6, 300)):
         # an environment renders episode after episode
         yield {"kind": "animation_env_episodes", "length": rng.choice([5, 9, 14]),
@@ -322,7 +328,8 @@ def run_animation(ctx, case):
     rng = random.Random(case["seed"])
     n = case["length"]
     inst = long_instance(n, rng)
-    td = tempfile.mkdtemp(prefix="jsv-c20-")
+    # (experiment folders are often named after their parameters)
+    td = tempfile.mkdtemp(prefix=["jsv-c20-", "jsv-c20[lr=0.1]-", "jsv-c20-a*b-", "jsv-c20 (2)-"][case["seed"] % 4])
     try:
         entry = case["entry"]
         env = None
@@ -562,6 +569,37 @@ def run_plotter_reuse(ctx, case):
     ctx.note_case(case, True, fingerprint="plotter-reuse:%s" % case["seed"])
 
 
+def run_creator_chart(ctx, case):
+    import copy
+    import matplotlib.pyplot as plt
+    from job_shop_lib.visualization import GanttChartCreator
+    rng = random.Random(case["seed"])
+    run = Run(case["instance"])
+    r = run.r
+    creator = GanttChartCreator(run.d)
+    n = rng.randint(1, r.num_ops)
+    fork_at = rng.randint(0, n - 1) if case["seed"] % 2 else None
+    for k in range(n):
+        if fork_at == k:
+            dup = copy.deepcopy(run.d)
+            run.d, run.instance = dup, dup.instance
+            run.ops = [op for job in dup.instance.jobs for op in job]
+            # (re-obtained for the copy: same observer look-up as for any dispatcher)
+            creator = GanttChartCreator(dup)
+            ctx.count("creators_built_for_a_deep_copy_of_the_dispatcher")
+        o, m = run.choose(rng, "random_ready")
+        run.dispatch(o, m)
+    fig = creator.plot_gantt_chart()
+    want = [(r.machine_of[o], r.start[o], r.end[o], r.op_job[o]) for o in r.start]
+    try:
+        check_chart(ctx, run.d.schedule, fig.axes[0], want, None, None,
+                    "GanttChartCreator.plot_gantt_chart()" + (" on a deep copy" if fork_at is not None else ""))
+    finally:
+        plt.close(fig)
+    ctx.count("charts_requested_through_a_creator")
+    ctx.note_case(case, True, fingerprint="creator-chart:%s" % case["seed"])
+
+
 def run_animation_solver(ctx, case):
     """create_gantt_chart_gif(instance, solver=...): the frames show ONE run of the solver, frame
     by frame (each frame adds one operation to the previous one), and the axis limit handed to
@@ -658,4 +696,4 @@ def run_case(ctx, case):
     {"chart": run_chart, "animation": run_animation, "animation_real": run_animation_real,
      "animation_two_step": run_two_step, "animation_solver": run_animation_solver,
      "animation_env_episodes": run_animation_env_episodes,
-     "plotter_reuse": run_plotter_reuse}[case["kind"]](ctx, case)
+     "plotter_reuse": run_plotter_reuse, "creator_chart": run_creator_chart}[case["kind"]](ctx, case)
